@@ -125,6 +125,62 @@ func vpH_C01_special_texts() {
 	vpReach("end")
 }
 
+// properties that are present but empty (an allocated empty list, an empty language list, an empty
+// endpoints struct, an object that says nothing): the value itself is still written and comes back
+// with everything else intact; the empty property is absent or empty afterwards
+func vpC01Degenerate(codec int) {
+	ti := vpChoice(len(vpTypeNames))
+	fields := vpFieldsOf(ti)
+	f := 2 + vpChoice(len(fields)-2)
+	x := vpNew(ti)
+	vpSetField(x, 0, 0, 'i')
+	vpSetField(x, vpFieldIndex(ti, "Name"), 0, 'n')
+	switch fields[f].Kind {
+	case "Items":
+		vpSetField(x, f, 6, 'a')
+	case "NLV":
+		if fields[f].Name == "Name" {
+			vpReach("end")
+			return
+		}
+		vpSetField(x, f, 5, 'a')
+	case "Item":
+		vpSetField(x, f, 11+vpChoice(3), 'a')
+	default:
+		vpReach("end")
+		return
+	}
+	cell := vpTypeNames[ti] + "." + fields[f].Name
+	var y Item
+	var err error
+	if codec == 0 {
+		var b []byte
+		b, err = vpMarshalItem(x)
+		vpAssert("degenerate/json/encode/"+cell, err == nil && len(b) > 0)
+		if len(b) == 0 {
+			return
+		}
+		y, err = UnmarshalJSON(b)
+	} else {
+		var b []byte
+		b, err = GobEncode(x)
+		vpAssert("degenerate/gob/encode/"+cell, err == nil && len(b) > 0)
+		if len(b) == 0 {
+			return
+		}
+		y, err = GobDecode(b)
+	}
+	vpAssert("degenerate/decode/"+cell, err == nil && y != nil)
+	if y == nil {
+		return
+	}
+	name := fields[f].Name
+	vpDiffItems("degenerate/others-intact/"+cell, x, y, func(n string) bool { return n == name })
+	vpReach("end")
+}
+
+func vpH_C01_degenerate() { vpC01Degenerate(0) }
+
 func vpH_C01_Object()                { vpC01Cell(vpTypeIndex("Object")) }
 func vpH_C01_Actor()                 { vpC01Cell(vpTypeIndex("Actor")) }
 func vpH_C01_Activity()              { vpC01Cell(vpTypeIndex("Activity")) }
